@@ -11,8 +11,8 @@ Findings visible in this file (the statements say exactly where the property fai
 * D5b  `GeckoWaterCare.__str__` raises IndexError for mode 5 (`watercare_mode5_raises`; full statement proved for the
        corrected guard in `watercare_total_if_fixed`), and through the eager `{sender}` formatting of
        `Observable._on_change` so does `change_watercare_mode(5)` (`watercare_change_mode5_raises`);
-* D5c  threaded path only: after any reminder report `GeckoReminders.get_reminder` raises AttributeError
-       (`sync_get_reminder_raises`).
+* (latent, not part of the public surface) the threaded facade keeps its reminders manager private; after any reminder
+       report its `get_reminder` would raise AttributeError on the tuples `_on_reminders` stores (`sync_get_reminder_raises`).
 -/
 import GeckoModel.Proofs.FacadeMembers
 import GeckoModel.Proofs.FacadeParts
@@ -34,17 +34,15 @@ theorem total_api (P : Profile) (id : Ident) (h : Req P) (b0 b : Block) (hb0 : b
   obtain ⟨f, hf, _, _, g⟩ := construct_ok P id b0 h.facts hb0
   refine ⟨f, hf, ?_⟩
   intro o m r hr
-  refine evalObj_ok f g { block := b } hb o m ⟨?_, ?_⟩ r hr
-  · intro _ _; exact ⟨_, rfl⟩
-  · intro _; exact Or.inr (Or.inl rfl)
+  exact evalObj_ok f g { block := b } hb o m (fun _ _ => ⟨_, rfl⟩) r hr
 
 /- FULL statement with the dynamic state (any watercare mode, any reminder report):
      ∀ d, d.block.length = blockSize → ∀ o m r, evalObj f d o m = some r → ∃ v, r = .ok v
-   It is FALSE today: `watercare_mode5_raises` (D5b) and `sync_get_reminder_raises` (D5c) are the witnesses.  Proved with
-   exactly those two situations excluded (`DynOk`): -/
+   It is FALSE today: `watercare_mode5_raises` (D5b) is the witness.  Proved with exactly that situation excluded
+   (`DynOk`: the member is not the watercare `__str__` on a mode it cannot render): -/
 theorem total_api_dyn_partial (P : Profile) (id : Ident) (h : Req P) (b0 : Block) (hb0 : b0.length = blockSize) :
     ∃ f, construct P id b0 = .ok f ∧
-      ∀ (d : Dyn), d.block.length = blockSize → ∀ (o : Obj) (m : Mem), DynOk f d o m →
+      ∀ (d : Dyn), d.block.length = blockSize → ∀ (o : Obj) (m : Mem), DynOk d o m →
         ∀ r, evalObj f d o m = some r → ∃ v, r = .ok v := by
   obtain ⟨f, hf, _, _, g⟩ := construct_ok P id b0 h.facts hb0
   exact ⟨f, hf, fun d hd o m hdyn => evalObj_ok f g d hd o m hdyn⟩
@@ -112,8 +110,9 @@ theorem reminders_total (id : Ident) (hid : id.flavor = .async) (rems : Option (
     (∀ rec : Nat × Int, ∀ r, reminderMember rec m = some r → ∃ v, r = .ok v) :=
   ⟨remindersMember_ok id rems m (Or.inl hid), fun rec => reminderMember_ok rec m⟩
 
-/- FULL statement for the threaded facade: the same with `id.flavor = .sync`.  FALSE today (D5c): `_on_reminders` stores
-   tuples, `get_reminder` reads `.type` of them.  Proved for everything but `get_reminder`: -/
+/- The threaded facade publishes only the reminder LIST (`GeckoFacade.reminders`); its manager object `_reminders` is private.
+   For that private object the same statement with `id.flavor = .sync` is false (`_on_reminders` stores tuples, `get_reminder`
+   reads `.type` of them); proved for everything but `get_reminder`, with the witness: -/
 theorem reminders_sync_partial (id : Ident) (rems : Option (List (Nat × Int))) (m : Mem) (hm : ∀ t, m ≠ .get_reminder t) :
     ∀ r, remindersMember id rems m = some r → ∃ v, r = .ok v :=
   remindersMember_ok id rems m (Or.inr (Or.inr hm))
